@@ -84,6 +84,7 @@ def generate(rng, tier):
         out.append({'kind': 'history', 'start': rng.choice(['empty', 'warm', 'warm', 'overflow']), 'pool': pool, 'events': events})
     names = ['list-plus', 'list-plus-t', 'list-times', 'set-or', 'set-minus', 'scope-plus', 'dict-spec-arith', 'sum-lists', 'flatten', 'merge',
              'group', 'iter-all', 'default-list', 'default-dict-t', 'call-list-arg', 'invoke-specs', 'bind-list', 'check-default', 'match-default',
+             'check-type-default', 'check-validate-default', 'check-validate-default-t', 'default-empty-dict', 'bind-empty', 'call-empty-args', 'match-default-empty',
              'twin-a', 'twin-b', 'twin-k', 'twin-k-raw']
     for _ in range(12 if tier == 'quick' else 120):
         pick = rng.sample(names, rng.randint(2, 5))
@@ -275,6 +276,13 @@ def _scenarios():
         'invoke-specs': (lambda: {'a': [3, 1, 2]}, lambda: Invoke(sorted).specs('a'), None),
         'bind-list': (lambda: {'n': 1}, lambda: (S(x=[T['n'], [T['n']]]), S.x), None),
         'check-default': (lambda: {'n': 0}, lambda: ('n', Check(default=[])), None),
+        'check-type-default': (lambda: {'n': 0}, lambda: ('n', Check(type=str, default=[])), None),
+        'check-validate-default': (lambda: {'n': 0}, lambda: ('n', Check(validate=lambda x: False, default=[])), None),
+        'check-validate-default-t': (lambda: {'n': 0}, lambda: Check(validate=lambda x: False, default={'was': [T['n']]}), None),
+        'default-empty-dict': (lambda: {}, lambda: Coalesce('zz', default={}), None),
+        'bind-empty': (lambda: {'name': 'n'}, lambda: (S(seen={}, order=[]), S.seen), None),
+        'call-empty-args': (lambda: {'f': lambda a, b: (a, b)}, lambda: T['f']([], {}), None),
+        'match-default-empty': (lambda: {'n': 0}, lambda: Match({'n': str}, default=[]), None),
         'match-default': (lambda: {'n': 0}, lambda: Match({'n': str}, default={'bad': [T]}), None),
         # three failing calls whose exception classes are different objects with one __name__: the class seen by the caller
         # may not depend on which of them an earlier call raised
@@ -330,7 +338,19 @@ def run_scenarios(case):
         sc_before = copy.deepcopy(scope)
         ids_before = struct_ids(target)
         kw = {'scope': scope} if scope is not None else {}
-        o = _outcome(lambda: glom.glom(target, spec, **kw))
+        got = []
+
+        def call():
+            got.append(glom.glom(target, spec, **kw))
+            return got[0]
+        o = _outcome(call)
+        if got:
+            # the caller owns the result: every container of it that is not an input object is scribbled over — a later evaluation
+            # of the same spec object handing out the same container again (a spec literal, cached state) then shows
+            keep = set()
+            _reach(target, keep)
+            _reach(scope, keep)
+            _scribble(got[0], keep)
         if target != t_before or struct_ids(target) != ids_before:
             out['problems'].append('%s: the target was changed: %r -> %r' % (name, t_before, target))
         if repr(spec) != s_before:
@@ -342,6 +362,33 @@ def run_scenarios(case):
         if o != colds[name]:
             out['problems'].append('%s: after this history %r, in a fresh interpreter %r' % (name, o, colds[name]))
     return out
+
+
+def _reach(o, acc, depth=0):
+    if depth > 8 or id(o) in acc:
+        return
+    if isinstance(o, (dict, list, tuple, set, frozenset)):
+        acc.add(id(o))
+        for x in (list(o.values()) + list(o.keys()) if isinstance(o, dict) else list(o)):
+            _reach(x, acc, depth + 1)
+
+
+def _scribble(res, keep, depth=0):
+    if depth > 8 or id(res) in keep:
+        return
+    if isinstance(res, dict):
+        for v in list(res.values()):
+            _scribble(v, keep, depth + 1)
+        res.clear()
+        res['<scribbled>'] = True
+    elif isinstance(res, list):
+        for v in list(res):
+            _scribble(v, keep, depth + 1)
+        del res[:]
+        res.append('<scribbled>')
+    elif isinstance(res, tuple):
+        for v in res:
+            _scribble(v, keep, depth + 1)
 
 
 def run_registry_history(case):
